@@ -1,12 +1,123 @@
-/- Driver ops for the Resolve model. Stub until the model lands. -/
+/- Driver ops for the resolution model (`PypyrModel/Resolve.lean`).
+
+   Paths travel as absolute posix strings ("/R/cwd/pipelines"); the file system as the lists of
+   files and directories that exist.
+
+   resolve.path  {name, parent: str|null, cwd, builtin, files: [str], dirs: [str]}
+                 → {ok: str} | {err: str}
+   resolve.args  {pype: {loader?, resolveFromParent?, parent?}, info: {loader, parent, isLoaderCascading,
+                  isParentCascading}} → {loader: str|null, parent: str|null}
+   resolve.chain {cwd, builtin, files, dirs, rootLoader: str|null, custom: [[name, parentCasc, loaderCasc]…],
+                  hops: [{name, pype}…]}
+                 → {loaded: [{file: str} | {custom: [loader, name, parent|null]}…], err: str|null,
+                    sysPath: [str…]}   (sysPath = entries appended, in order)
+-/
 import Lean.Data.Json
 import PypyrModel.Json
+import PypyrModel.Resolve
 
 namespace Pypyr.OpResolve
 open Lean (Json)
+open Pypyr.Resolve
 
-/-- Handle one request object (already parsed); `Except.error` = protocol-level reject. -/
-def handle (_op : String) (_j : Json) : Except String Json :=
-  .error "not implemented"
+def badSeg (s : String) : Bool := s.isEmpty || s == "." || s == ".."
+
+/-- "/a/b" → ["a","b"]; anything not absolute and normalised is rejected -/
+def pathOfStr (s : String) : Except String Path :=
+  if s == "/" then pure []
+  else match s.splitOn "/" with
+    | "" :: rest => if rest.any badSeg then .error s!"path not normalised: {s}" else pure rest
+    | _ => .error s!"path not absolute: {s}"
+
+def nameOfStr (s : String) : Except String Name :=
+  match s.splitOn "/" with
+  | "" :: rest => if rest.isEmpty || rest.any badSeg then .error s!"name outside the domain: {s}" else pure (.abs rest)
+  | parts => if parts.any badSeg then .error s!"name outside the domain: {s}" else pure (.rel parts)
+
+def optPath (j : Json) : Except String (Option Path) :=
+  match j with
+  | .null => pure none
+  | .str s => if s.isEmpty then pure none else (pathOfStr s).map some
+  | _ => .error "parent must be a string or null"
+
+def strList (j : Json) : Except String (List String) := do
+  (← j.getArr?).toList.mapM Json.getStr?
+
+def fsOfJson (j : Json) : Except String Fs := do
+  let cwd ← pathOfStr (← (← j.getObjVal? "cwd").getStr?)
+  let builtin ← pathOfStr (← (← j.getObjVal? "builtin").getStr?)
+  let files ← (← strList (← j.getObjVal? "files")).mapM pathOfStr
+  let dirs ← (← strList (← j.getObjVal? "dirs")).mapM pathOfStr
+  pure { cwd := cwd, builtin := builtin, isFile := fun p => files.contains p,
+         dirExists := fun d => dirs.contains d }
+
+def pypeOfJson (j : Json) : Except String PypeIn := do
+  let loader ← match j.getObjVal? "loader" with
+    | .error _ => pure none
+    | .ok .null => pure (some none)
+    | .ok (.str s) => pure (some (some s))
+    | .ok _ => .error "loader must be a string or null"
+  let rfp ← match j.getObjVal? "resolveFromParent" with
+    | .error _ => pure none
+    | .ok v => (Val.ofJson v).map some
+  let parent ← match j.getObjVal? "parent" with
+    | .error _ => pure none
+    | .ok v => (optPath v).map some
+  pure { loader := loader, resolveFromParent := rfp, parent := parent }
+
+def optPathJson : Option Path → Json
+  | none => Json.null
+  | some p => Json.str (pathStr p)
+
+def loadedToJson : Loaded → Json
+  | .file p => Json.mkObj [("file", Json.str (pathStr p))]
+  | .custom l n par _ _ => Json.mkObj [("custom", Json.arr #[Json.str l, Json.str n, optPathJson par])]
+
+def handle (op : String) (j : Json) : Except String Json := do
+  match op with
+  | "path" =>
+    let fs ← fsOfJson j
+    let name ← nameOfStr (← (← j.getObjVal? "name").getStr?)
+    let parent ← optPath (← j.getObjVal? "parent")
+    match getPipelinePath fs name parent with
+    | .ok p => pure (Json.mkObj [("ok", Json.str (pathStr p))])
+    | .error e => pure (Json.mkObj [("err", Json.str e)])
+  | "args" =>
+    let pype ← pypeOfJson (← j.getObjVal? "pype")
+    let ij ← j.getObjVal? "info"
+    let info : Info := {
+      loader := ← (← ij.getObjVal? "loader").getStr?
+      parent := ← optPath (← ij.getObjVal? "parent")
+      isLoaderCascading := ← (← ij.getObjVal? "isLoaderCascading").getBool?
+      isParentCascading := ← (← ij.getObjVal? "isParentCascading").getBool? }
+    pure (Json.mkObj [
+      ("loader", match childLoader pype info with | some s => Json.str s | none => Json.null),
+      ("parent", optPathJson (childParent pype info))])
+  | "chain" =>
+    let fs ← fsOfJson j
+    let rootLoader ← match ← j.getObjVal? "rootLoader" with
+      | .null => pure none
+      | .str s => pure (some s)
+      | _ => .error "rootLoader must be a string or null"
+    let customs ← (← (← j.getObjVal? "custom").getArr?).toList.mapM fun c => do
+      match (← c.getArr?).toList with
+      | [.str n, .bool pc, .bool lc] => pure (n, pc, lc)
+      | _ => .error "bad custom loader entry"
+    let hops ← (← (← j.getObjVal? "hops").getArr?).toList.mapM fun h => do
+      let nameStr ← (← h.getObjVal? "name").getStr?
+      let pype ← pypeOfJson (← h.getObjVal? "pype")
+      pure ({ nameStr := nameStr, name := ← nameOfStr nameStr, pype := pype } : Hop)
+    let custom := fun l => (customs.find? (·.1 == l)).map (·.2)
+    -- reject chains that name a loader nobody declared
+    let st0 : LoadState := { fileCache := [], sysPath := [], known := [] }
+    let (loaded, err, st) := runChain fs custom st0 none rootLoader hops
+    match err with
+    | some e => if e.startsWith "no such loader " then .error e else pure ()
+    | none => pure ()
+    pure (Json.mkObj [
+      ("loaded", Json.arr (loaded.map loadedToJson).toArray),
+      ("err", match err with | some e => Json.str e | none => Json.null),
+      ("sysPath", Json.arr (st.sysPath.map fun p => Json.str (pathStr p)).toArray)])
+  | _ => .error s!"unknown op {op}"
 
 end Pypyr.OpResolve
